@@ -233,18 +233,22 @@ PROPS["C29"] = dict(
          "scheduling property and is not decided.")
 PROPS["C30"] = dict(
     module="c29c30", func="run_c30", level="other", crates=["emmylua_ls", "emmylua_code_analysis"],
-    technique="siblings cross-check: forward CFG reachability from every removal call to the diagnostics-clear call (or to the caller receiving the removed uris)",
+    technique="siblings cross-check: forward CFG reachability from every removal call to the diagnostics-clear call; must-pass-through of the publishing call after every successful diagnose_file in the push tasks; loop/provenance check that cancellation tokens are created per inserted file id",
     text="Decides the second sentence of the property: every place where the server removes a file from the analysis reaches "
-         "clear_push_file_diagnostics for it. The majority discipline (6 of 8 sites) defines the rule; the deviants are reported.",
-    note="The first sentence (latest published set equals a fresh diagnosis once debounce timers settle) is timing/interleaving "
-         "dependent and is not decided.")
+         "clear_push_file_diagnostics for it. The majority discipline (6 of 8 sites) defines the rule; the deviants are reported. "
+         "For the first sentence it decides two structural premises: a diagnosis computed by a push task always reaches "
+         "publish_diagnostics (R30b), and no cancellation token is shared between file ids (R30c).",
+    note="Which task runs last under a given timing (latest published set equals a fresh diagnosis once debounce timers settle) "
+         "is interleaving dependent and is not decided.")
 
 PROPS["C25"] = dict(
     module="c25", func="run", level="other", crates=["emmylua_ls", "emmylua_code_analysis", "emmylua_formatter"],
-    technique="taint (client-derived offsets) + CFG dominance of a bounds comparison at every rowan API with a range precondition; siblings cross-check",
+    technique="taint (client-derived offsets) + CFG dominance of a bounds comparison at every rowan API with a range precondition; siblings cross-check; call-graph scoped audit of range-precondition sites (TextRange::new/at, TextSize subtraction, str range indexing) with ordering/char-boundary guard recognition",
     text="Decides the precondition-guard clause: every handler that feeds a client-derived offset/range to a rowan API that panics "
          "on out-of-range input first compares it with the document's end (the idiom 12 handler files already use; the deviants "
-         "are reported), and to_rowan_range rejects reversed ranges.",
+         "are reported), and to_rowan_range rejects reversed ranges. R25c: every TextRange::new/at, TextSize subtraction and str range "
+         "indexing reachable from the 19 position-taking handlers (emmylua_ls + emmylua_formatter) is ordered/char-boundary safe by a "
+         "recognised guard or by an audited entry.",
     note="Semantic crashes deeper inside a handler are outside this rule. Trusted: rowan's documented preconditions, the source/guard tables in rules/c25.py.")
 
 PROPS["C40"] = dict(
